@@ -122,6 +122,21 @@ class G:
             c = self.fresh("C")
             return ("class %s { v: number; constructor(v: number) { this.v = v; } get d() { return this.v * 2; } m(n: number) { return this.v + n; } static s(n: number) { return n + 1; } }\n"
                     "acc += new %s(%s).m(%s) + new %s(1).d + %s.s(2);" % (c, c, self.num(vars_, 1), self.num(vars_, 1), c, c)), []
+        if k < 0.975:
+            # eval runs code in a scope of its own: the scope (and its guard) must be gone afterwards on every exit path
+            self.features.add("eval")
+            e = self.fresh("ee")
+            a, b = r.randint(0, 9), r.randint(1, 9)
+            return r.choice([
+                "acc += eval('(%d + %d)');" % (a, b),
+                "acc += eval('let ev = %d; { let ew = ev * %d; ew }');" % (a, b),
+                "acc += (0, eval)('[%d, %d].map(x => x + 1).length');" % (a, b),
+                "try { eval('null.x'); } catch (%s) { acc += 3; }" % e,
+                "try { eval('{ let deep = %d; { throw new RangeError(\"ev\"); } }'); } catch (%s) { acc += 4; }" % (a, e),
+                "try { (0, eval)('undefinedInEval%d()'); } catch (%s) { acc += 5; }" % (self.n, e),
+                "try { eval('let q = 1; {'); } catch (%s) { acc += 6; }" % e,
+                "try { acc += eval('(function () { { let z = %d; throw z; } })()'); } catch (%s) { acc += 7; }" % (a, e),
+            ]), []
         self.features.add("collections")
         m = self.fresh("m")
         return ("const %s = new Map<string, number>(); %s.set('a', %s); %s.set('b', 2); const st = new Set([1, 2, 2, %s]); acc += %s.get('a')! + st.size + [...%s.keys()].length;"
@@ -133,7 +148,7 @@ class G:
         fail = ""
         if self.fail:
             self.features.add("uncaught")
-            kind = r.choice(["throw new TypeError('planted');", "const u: any = undefined; u.x.y;", "plantedMissing();", "throw 'str';",
+            kind = r.choice(["throw new TypeError('planted');", "const u: any = undefined; u.x.y;", "plantedMissing();", "throw 'str';", "eval('{ let inEval = 1; plantedMissingInEval(); }');",
                              "const gi = (function* (secretp: number) { let secret = 1; yield secret + secretp; yield 2; })(4); gi.next(); gi.throw(new Error('planted in generator'));"])
             wrap = r.randint(0, 3)
             inner = kind
